@@ -169,6 +169,37 @@ def w_ppm(ctx, rng, i):
     ctx.bin("M", M)
 
 
+def w_vectorise_large(ctx, rng, i):
+    """element-wise also means: for arrays of any size and shape (hundreds of points, sizes that are not a multiple of any internal
+    block, 2-D broadcasts): every element equals the scalar call, checked on the first, the last and a random sample of elements."""
+    s0, s1 = rand_sigmas(rng)
+    s = max(s0, s1)
+    which = ["ook", "ppm_soft", "ppm_hard", "utils"][i % 4]
+    shape = [(501,), (750,), (1024,), (3, 211), (1201,), (64, 17)][(i // 4) % 6]
+    n = int(np.prod(shape))
+    M = int(2 ** rng.integers(1, 9))
+    ctx.describe(which=which, shape=shape, s0=s0, s1=s1, M=M)
+    idx = sorted(set([0, 1, n // 2, n - 2, n - 1] + [int(v) for v in rng.integers(0, n, 6)]))
+    with core.quiet():
+        if which == "utils":
+            Pw = rng.uniform(-45, -15, shape)
+            kw = dict(modulation=["ook", "ppm"][int(rng.integers(2))], M=M, decision=["hard", "soft"][int(rng.integers(2))])
+            vec = np.asarray(U.theory_BER(Pw, **kw), float)
+            one = np.array([float(U.theory_BER(float(Pw.flat[j]), **kw)) for j in idx])
+        else:
+            mus = rng.uniform(0.05, 20, shape) * s
+            if which == "ook":
+                f = lambda m: O.theory_BER(m, s0, s1)
+            else:
+                dec = which.split("_")[1]
+                f = lambda m: P.theory_BER(m, s0, s1, M, dec)
+            vec = np.asarray(f(mus), float)
+            one = np.array([float(f(float(mus.flat[j]))) for j in idx])
+    ok = vec.shape == tuple(shape) and np.allclose(vec.flat[idx], one, rtol=1e-9, atol=1e-15)
+    ctx.check("vectorise", ok, f"{which} theory_BER on an array of shape {shape}: elements {[j for j, (a, b) in zip(idx, zip(vec.flat[idx] if vec.shape == tuple(shape) else one * np.nan, one)) if not np.isclose(a, b, rtol=1e-9, atol=1e-15)]} differ from the scalar calls (result shape {vec.shape})")
+    ctx.case(("veclarge", which, shape), sample=dict(which=which, shape=shape) if i < 2 else None)
+
+
 def w_estimator(ctx, rng, i):
     s0, s1 = rand_sigmas(rng)
     s = max(s0, s1)
@@ -415,6 +446,7 @@ WORKLOADS = [
     Workload("estimator", w_estimator, 400, 40000),
     Workload("model", w_model, 1500, 100000),
     Workload("utils_ber", w_utils_ber, 450, 40000),
+    Workload("vectorise_large", w_vectorise_large, 24, 480, budget=300),
     Workload("devices_agree", w_devices_agree, 6, 60, budget=300),
 ]
 
